@@ -41,6 +41,22 @@ define_language! {
     }
 }
 
+// C03: arithmetic over a prime field with a summation binder and a let binder (the model lives in mirsmt/model_eval.py)
+define_language! {
+    pub enum Lm {
+        MVar(Slot) = "mvar",
+        MAdd(AppliedId, AppliedId) = "madd",
+        MMul(AppliedId, AppliedId) = "mmul",
+        MSum(Bind<AppliedId>) = "msum",
+        MLet(Bind<AppliedId>, AppliedId) = "mlet",
+    }
+}
+
+/// condition of the conditional rule of C03: the class bound to ?b does not depend on the pattern slot x
+pub fn cond_b_independent_of<N: Analysis<Lm>>(x: Slot) -> impl Fn(&Subst, &EGraph<Lm, N>) -> bool {
+    move |s, _eg| !s.get("b").unwrap().slots().contains(&x)
+}
+
 #[derive(Default)]
 pub struct MinSize;
 impl Analysis<Lb> for MinSize {
